@@ -99,7 +99,7 @@ def register(reg):
         suspension, outcome"""
         eng = it.eng
         d = deadline_of(st)
-        ev = it.emit(st, "rt." + name, node, deadline=(d.param if d is not None else None), **data)
+        ev = it.emit(st, "rt." + name, node, deadline=(d.param if d is not None else None), held_locks=list(st.held), **data)
         if suspends:
             it.suspend(st, f"rt.{name}@{node.lineno}")
         names = ["ok"] + [r.rsplit(".", 1)[-1] for r in raises]
@@ -329,6 +329,10 @@ def register(reg):
                     else:
                         d = ev.data.get("deadline")
                         out.append(("awaited_call_runs_under_fail_after_the_given_timeout", ("C16", "C18"), d.t == want if d is not None else False))
+                    if method in ("read", "write"):
+                        # the reader of an HTTP/2 connection parks in the runtime read while other streams' threads / tasks
+                        # write on the same stream object: nothing may be held across the blocking call (seed C12-w4-1)
+                        out.append(("nothing_is_held_across_the_blocking_runtime_call", ("C12", "C13", "C08", "C18"), len(ev.data.get("held_locks", [])) == 0))
                     if "obj" in ev.data or "sock" in ev.data:
                         o = ev.data.get("obj") or ev.data.get("sock")
                         out.append(("operates_on_own_runtime_stream", ("C02", "C03"), o.t == F(c, c.self, f"{short}.{field}")))
@@ -410,14 +414,14 @@ def register(reg):
         M.__name__ = f"M_{short}_{method}"
         return M
 
-    stream_contract(SYNC_STREAM, "SyS", "_sock", "sync", "read", {"rt.sock.recv"}, READ, props=("C16", "C15", "C02", "C18"))
-    stream_contract(SYNC_STREAM, "SyS", "_sock", "sync", "write", {"rt.sock.send"}, WRITE, props=("C16", "C15", "C03", "C13", "C01", "C17", "C18"))
+    stream_contract(SYNC_STREAM, "SyS", "_sock", "sync", "read", {"rt.sock.recv"}, READ, props=("C16", "C15", "C02", "C18", "C12", "C13", "C08"))
+    stream_contract(SYNC_STREAM, "SyS", "_sock", "sync", "write", {"rt.sock.send"}, WRITE, props=("C16", "C15", "C03", "C13", "C01", "C17", "C18", "C12", "C08"))
     stream_contract(SYNC_STREAM, "SyS", "_sock", "sync", "start_tls", {"rt.ssl.wrap_socket"}, CONNECT, props=("C16", "C15", "C06", "C04", "C18"), closes_on_failure=True)
-    stream_contract(ANYIO_STREAM, "AnS", "_stream", "anyio", "read", {"rt.anyio.receive"}, READ, props=("C16", "C15", "C02", "C18"))
-    stream_contract(ANYIO_STREAM, "AnS", "_stream", "anyio", "write", {"rt.anyio.send"}, WRITE, props=("C16", "C15", "C03", "C13", "C01", "C17", "C18"))
+    stream_contract(ANYIO_STREAM, "AnS", "_stream", "anyio", "read", {"rt.anyio.receive"}, READ, props=("C16", "C15", "C02", "C18", "C12", "C13", "C08"))
+    stream_contract(ANYIO_STREAM, "AnS", "_stream", "anyio", "write", {"rt.anyio.send"}, WRITE, props=("C16", "C15", "C03", "C13", "C01", "C17", "C18", "C12", "C08"))
     stream_contract(ANYIO_STREAM, "AnS", "_stream", "anyio", "start_tls", {"rt.anyio.TLSStream.wrap"}, CONNECT, props=("C16", "C15", "C06", "C04", "C18"), closes_on_failure=True)
-    stream_contract(TRIO_STREAM, "TrS", "_stream", "trio", "read", {"rt.anyio.receive_some"}, READ, props=("C16", "C15", "C02", "C18"))
-    stream_contract(TRIO_STREAM, "TrS", "_stream", "trio", "write", {"rt.anyio.send_all"}, WRITE, props=("C16", "C15", "C03", "C13", "C01", "C17", "C18"))
+    stream_contract(TRIO_STREAM, "TrS", "_stream", "trio", "read", {"rt.anyio.receive_some"}, READ, props=("C16", "C15", "C02", "C18", "C12", "C13", "C08"))
+    stream_contract(TRIO_STREAM, "TrS", "_stream", "trio", "write", {"rt.anyio.send_all"}, WRITE, props=("C16", "C15", "C03", "C13", "C01", "C17", "C18", "C12", "C08"))
     stream_contract(TRIO_STREAM, "TrS", "_stream", "trio", "start_tls", {"rt.anyio.do_handshake"}, CONNECT, props=("C16", "C15", "C06", "C04", "C18"), closes_on_failure=True)
 
     def close_contract(cls, short, field, kind, method):
